@@ -6,14 +6,15 @@
      Every plan the real operator.Builder produces in a run of bin/check is pushed through it inside Coq
      (monitor of model/C08_Builder.v), which decides the property for that plan.
    * The builder model (checked step for step against the real builder on every case) is shown to
-     produce only accepted plans: on the exhaustive domain of <= 3 stores (bounded: the bound is in the
-     statement) for both paths, and in general for the joint path.  The two classes of inputs on which
+     produce only accepted plans: IN GENERAL for both paths (C08_builder_plan_ok: any number of stores,
+     any call sequence, any cluster), and additionally by exhaustive evaluation on the domain of <= 3
+     stores (bounded: the bound is in the statement).  The two classes of inputs on which
      the builder used to violate the property (S16, demote before add) were repaired in /repo; the
      former refutation witnesses are kept as regression lemmas (the old plans are rejected, the new
      ones accepted). *)
 From Coq Require Import String.
 From PDV Require Import lib.Base gen.Gen_C08 model.C08_Steps model.C08_Builder
-     proof.C08_PlanProof proof.C08_BuilderProof proof.C08_JointMain proof.C08_Skel.
+     proof.C08_ListFacts proof.C08_PlanProof proof.C08_BuilderProof proof.C08_JointMain proof.C08_NjMain proof.C08_Skel proof.C08_StepSpec.
 Local Open Scope Z_scope.
 
 (* ---- the checker is sound, for every region state, goal and plan ---- *)
@@ -37,6 +38,21 @@ Theorem C08_exec_plan_covers_steps :
     exists flags : list bool, length flags = length ss /\
       map (fun t => snd (fst t)) trs = map snd (filter (fun x => fst x) (combine flags ss)).
 Proof. exact exec_plan_steps. Qed.
+
+(* ---- step.go itself: CheckSafety and IsFinish as transcribed imply what the property asks of them, for every step kind
+        (the driver's step monitor holds the IMPLEMENTATION's answers against the same two predicates) ---- *)
+(* a step passes CheckSafety only if: leadership goes to a present non-learner; a peer is added only to a free store (or is
+   already there); promote/demote/joint entries exist with their ids; the leader is never removed, demoted, or demoted by
+   leaving a joint state; a joint step is either wholly pending on a region outside any joint state or wholly done with the
+   region's joint peers being exactly its entries *)
+Theorem C08_check_safety_sound :
+  forall r s, nodup_stores (peers r) = true -> step_ids_nonzero s = true -> check_safety r s = None -> spec_safe r s = true.
+Proof. intros r s H. apply check_safety_sound. apply nodup_stores_ND. exact H. Qed.
+
+(* a step counts as finished only if its effect is present in the region *)
+Theorem C08_is_finish_sound :
+  forall r s, nodup_stores (peers r) = true -> step_ids_nonzero s = true -> is_finish r s = true -> spec_done r s = true.
+Proof. intros r s H. apply is_finish_sound. apply nodup_stores_ND. exact H. Qed.
 
 (* ---- builder, exhaustive for up to 3 stores: all origin role vectors and leaders, all target role vectors
         and requested leaders (or none), all leader-admissibility vectors of the stores, joint consensus
@@ -100,14 +116,52 @@ Theorem C08_builder_joint_plan_ok :
     plan_ok (goal_of b) (i_region i) ss = true.
 Proof. exact builder_joint_plan_ok_general_pf. Qed.
 
-(* ---- statement not yet proved in general: visible, listed under "todo" in checks/C08.json ---- *)
-(* the non-joint path for any number of stores *)
-Definition C08_builder_nonjoint_plan_ok_general_todo : Prop :=
+(* ---- the non-joint path, in general: any region, any sequence of builder calls, any cluster, any allocator answers.
+        Extra hypothesis: the peer ids of the origin and of the peers the plan adds are pairwise distinct (what PD's id
+        allocator guarantees; DemoteFollower.CheckSafety recognises the leader by its peer id).
+        Proof: the loop of buildStepsWithoutJointConsensus keeps a simulation between the builder's state and the
+        region reached by the steps emitted so far, and a per-store invariant tying toAdd / toRemove / toPromote /
+        toDemote to the target; peerPlan's result is one of the candidates that reached comparePlan, whatever the
+        preference functions say; a lone demotion or voter removal happens only when no voter is waiting to be added
+        (else planReplace would not have been empty), so the voter count never drops below min(origin, target). ---- *)
+Theorem C08_builder_nonjoint_plan_ok :
   forall i b ss kl kr,
-    nodup_stores (peers (i_region i)) = true -> is_in_joint (i_region i) = false ->
+    nodup_stores (peers (i_region i)) = true ->
+    is_in_joint (i_region i) = false ->
     (exists lp, get_store_peer (i_region i) (leader (i_region i)) = Some lp /\ prole lp = Voter) ->
-    prepared i = Some b -> b_use_joint b = false -> build i = Built ss kl kr ->
+    prepared i = Some b -> b_use_joint b = false ->
+    NoDup (map pid (peers (i_region i)) ++ map pid (b_add b)) ->
+    build i = Built ss kl kr ->
     plan_ok (goal_of b) (i_region i) ss = true.
+Proof. exact builder_nonjoint_plan_ok_general_pf. Qed.
+
+(* ---- builder_plan_ok at full strength: both paths, every input ---- *)
+Theorem C08_builder_plan_ok :
+  forall i b ss kl kr,
+    nodup_stores (peers (i_region i)) = true ->
+    is_in_joint (i_region i) = false ->
+    (exists lp, get_store_peer (i_region i) (leader (i_region i)) = Some lp /\ prole lp = Voter) ->
+    prepared i = Some b ->
+    NoDup (map pid (peers (i_region i)) ++ map pid (b_add b)) ->
+    build i = Built ss kl kr ->
+    plan_ok (goal_of b) (i_region i) ss = true.
+Proof.
+  intros i b ss kl kr H1 H2 H3 H4 H5 H6. destruct (b_use_joint b) eqn:E.
+  - eapply builder_joint_plan_ok_general_pf; eauto.
+  - eapply builder_nonjoint_plan_ok_general_pf; eauto.
+Qed.
+
+(* by C08_plan_ok_sound: every plan the builder model produces executes step by step with every clause of the property *)
+Corollary C08_builder_plans_execute_safely :
+  forall i b ss kl kr,
+    nodup_stores (peers (i_region i)) = true ->
+    is_in_joint (i_region i) = false ->
+    (exists lp, get_store_peer (i_region i) (leader (i_region i)) = Some lp /\ prole lp = Voter) ->
+    prepared i = Some b ->
+    NoDup (map pid (peers (i_region i)) ++ map pid (b_add b)) ->
+    build i = Built ss kl kr ->
+    exists trs rf, exec_plan (i_region i) ss = Some (trs, rf) /\ Forall (transition_ok (goal_of b)) trs /\ final_state_ok (goal_of b) rf.
+Proof. intros. apply plan_ok_sound_pf. eapply C08_builder_plan_ok; eauto. Qed.
 
 (* non-vacuity: a joint plan with leader hand-over inside the joint state is accepted; domain sizes *)
 Example C08_nonvacuous :
@@ -124,9 +178,14 @@ Proof. split; [vm_compute; reflexivity|]. split; [eexists; split; [|split]; vm_c
 
 Print Assumptions C08_plan_ok_sound.
 Print Assumptions C08_exec_plan_covers_steps.
+Print Assumptions C08_check_safety_sound.
+Print Assumptions C08_is_finish_sound.
 Print Assumptions C08_builder_plan_ok_bounded.
 Print Assumptions C08_s16_repaired.
 Print Assumptions C08_demote_after_add_repaired.
 Print Assumptions C08_unrepaired_plans_rejected.
 Print Assumptions C08_leave_joint_ok_bounded.
 Print Assumptions C08_builder_joint_plan_ok.
+Print Assumptions C08_builder_nonjoint_plan_ok.
+Print Assumptions C08_builder_plan_ok.
+Print Assumptions C08_builder_plans_execute_safely.
